@@ -54,7 +54,11 @@ RULE = ('kinds: volt_tol = TOLERANCE STREAM, counted apart (never non-trivial, o
         'sample; every sample case also observes get_sample_times on the same waveform objects (CAnd).  win_tol = second '
         'TOLERANCE STREAM (counted apart): decimal begins / lengths / rates for time_windows_to_samples incl. products one ulp '
         'beside an integer / half-way point; check_corr exact (the model rounds the product to binary64), check_spec tolerance '
-        '2^-30.  shrink_overlapping_windows is also called with use_numba=True / False.  Cases are shuffled before sharding.')
+        '2^-30.  shrink_overlapping_windows is also called with use_numba=True / False.  Cases are shuffled before sharding.  '
+        'ROUND 5: volt_tol range-end family (decimal amplitudes; voltages exactly on offset +- amplitude where that sum is '
+        'exact, binary64 neighbours inside, with offset 0 one ulp outside = must be rejected).  classify files a failing avg '
+        'case under the known finding only if the loop variant shows exactly the documented two-pointer behaviour '
+        '(py_avg_loop) and numpy variant and public function are right.')
 TRUSTED = [
     'Coq 8.16.1 kernel + vm_compute (no native_compute)',
     'translator /verif/translate/py2gallina_c20.py (typed Z/Q/bool/arrays, canonical loop state by liveness; fail-closed; output '
@@ -226,6 +230,29 @@ def gen_volt_tol(rng, tier, out):
         vs = [v for v in vs if abs(abs(F(v) - F(fo)) - F(fa)) > F(fa) / 10 ** 6]
         out.append({'kind': 'volt_tol', 'amp': fs(F(fa)), 'off': fs(F(fo)), 'res': res, 'vs': [fs(F(v)) for v in vs],
                     'decimal': [amp, off]})
+
+
+def gen_volt_tol_ends(rng, tier, out):
+    """round 5 (clause "maps the range ends to the lowest and highest code ... rejects out-of-range input", decimal amplitudes):
+    the random tolerance stream stays 1e-6 * amplitude away from the range ends.  Here: voltages EXACTLY on offset +- amplitude
+    (only offsets for which that sum is exact in binary64, so that the exact specification and the float range test speak about
+    the same number), the binary64 neighbours just inside, and — offset 0, where v - offset is exact — the neighbours just
+    OUTSIDE (must be rejected: one ulp beyond the range)."""
+    amps = ['0.3', '0.7', '1.5', '2.3', '0.05', '0.123', '4.7', '1e-3']
+    for amp in amps:
+        for off in ('0', '0.25', '-0.5', '0.1', '1.7'):
+            fa, fo = float(amp), float(off)
+            ends = [v for v in (fo - fa, fo + fa) if abs(F(v) - F(fo)) == F(fa)]
+            if len(ends) < 2:
+                continue
+            for res in ((1, 2, 8, 13, 16) if tier == 'thorough' else (rng.choice([1, 2, 8]), 16)):
+                inside = [math.nextafter(ends[0], fo), math.nextafter(ends[1], fo)]
+                out.append({'kind': 'volt_tol', 'amp': fs(F(fa)), 'off': fs(F(fo)), 'res': res,
+                            'vs': [fs(F(v)) for v in [ends[0], inside[0], fo, inside[1], ends[1]]], 'decimal': [amp, off], 'ends': True})
+                if F(fo) == 0:
+                    for v in (math.nextafter(ends[0], -math.inf), math.nextafter(ends[1], math.inf)):
+                        out.append({'kind': 'volt_tol', 'amp': fs(F(fa)), 'off': '0', 'res': res,
+                                    'vs': [fs(F(x)) for x in (ends[0], v, ends[1])], 'decimal': [amp, off], 'ends': True})
 
 
 def gen_mono(rng, tier, out):
@@ -777,6 +804,7 @@ def gen_cases(rng, tier, ctx):
     gen_times_np2(rng, tier, out)
     gen_sample_np2(rng, tier, out)
     gen_sample_empty(rng, tier, out)
+    gen_volt_tol_ends(rng, tier, out)      # round 5; last, so that the earlier families draw the same numbers as before
     drng = __import__('random').Random(rng.getrandbits(64))
     out = [decorate(drng, c) for c in out]
     drng.shuffle(out)       # the Coq shards are contiguous slices: mix the kinds so that no shard gets all the big literals
@@ -1718,6 +1746,30 @@ def nontrivial(case, obs):
     return True
 
 
+def py_avg_loop(case):
+    """What the two-pointer loop of _average_windows_numba is KNOWN to return (known finding on windows that are not sorted by
+    begin and end): windows are closed strictly front to back (the first window whose end has not passed blocks all later
+    ones), a sample is added to the windows from the first open one on while their begin has passed (the first window whose
+    begin has not passed blocks all later ones).  Used by `classify` only: an observation of the loop variant on unsorted
+    windows that differs from THIS is a new behaviour, not the known finding."""
+    time = [F(t) for t in case['time']]
+    vals = [[F(v) for v in row] for row in case['values']]
+    nch = max(case['nch'], 1)
+    ws = [(F(b), F(e)) for b, e in case['ws']]
+    sums = [[F(0)] * nch for _ in ws]
+    cnt = [0] * len(ws)
+    start = 0
+    for t, row in zip(time, vals):
+        while start < len(ws) and ws[start][1] <= t:
+            start += 1
+        idx = start
+        while idx < len(ws) and ws[idx][0] <= t:
+            sums[idx] = [a + b for a, b in zip(sums[idx], row)]
+            cnt[idx] += 1
+            idx += 1
+    return [[None] * nch if n == 0 else [vlib.frac_json(x / n) for x in sm] for sm, n in zip(sums, cnt)]
+
+
 def _avg_windows_sorted(case):
     ws = [(F(b), F(e)) for b, e in case['ws']]
     return all(a[0] <= b[0] and a[1] <= b[1] for a, b in zip(ws, ws[1:]))
@@ -1795,7 +1847,10 @@ def classify(case, obs):
         if zl and py_shrink(case, obs['loop']) is None and 'err' in obs['np']:
             return 'C20-shrink-numpy-zero-length'
     if k == 'avg' and not _bad(obs) and all(not _bad(obs[v]) for v in ('np', 'loop', 'pub')):
-        if not _avg_windows_sorted(case) and py_avg(case, obs['np']) is None and py_avg(case, obs['pub']) is None:
+        # round 5: narrowed — only the loop variant is off, and it shows exactly the known two-pointer behaviour (a loop
+        # variant that does something ELSE on unsorted windows, e.g. returns zeros, is a new violation)
+        if (not _avg_windows_sorted(case) and py_avg(case, obs['np']) is None and py_avg(case, obs['pub']) is None
+                and obs['loop'].get('ret') == py_avg_loop(case)):
             return 'C20-average-loop-unsorted-windows'
     if k in ('win', 'win_tol') and not _bad(obs) and all(not _bad(obs[v]) and 'ret' in obs[v] for v in ('np', 'loop', 'pub')):
         bs = [w[0] for w in case['ws']]
@@ -1920,7 +1975,15 @@ MANIFEST = {
                   'model of get_sample_times meets spec_times under the guard (C20_sample_times_meets_spec).  Not translated: _average_windows_numba (needs while loops with a '
                   'termination measure, lazily evaluated `and` whose right operand subscripts an array, tuple unpacking of '
                   '.shape, 2-D row views with broadcasting += and /=, NaN rows): its model avg_loop is tied to the code by '
-                  'correspondence only.',
+                  'correspondence only.  ROUND 5 (audit): the sampling specification in Spec.v no longer uses any routine of the '
+                  'model (own sample-count, channel-value and marker-value definitions; bridging lemmas), so C20_sampling relates '
+                  'the flat-memory model to a model-free formula; ProofsWitness.v gives a non-trivial input for the hypotheses of '
+                  'every guarded theorem; C20_grid_edge_side now includes an edge at time 0.  TESTED ONLY (no theorem): the numpy '
+                  'variants and _average_windows_numba as code (correspondence), purity of every routine, that _sample_waveforms '
+                  'samples on the grid of get_sample_times, range ends / half-step error in binary64 beyond the 2^-30 bound, the '
+                  'extra clauses of the shrink checker (fails exactly when a window would lose all samples; minimal shrink), and '
+                  'that the models pass the executable checkers spec_tw / spec_shrink / spec_volt.  Not covered: amplitude 0, '
+                  'transformations other than identity / affine / square, float rounding of (T(x) - offset) / amplitude.',
     'level_note': 'Trusted: Coq kernel, the C20 translator (incl. its reading of numpy calls and float arithmetic as exact '
                   'rationals), numpy elementwise float arithmetic on dyadic inputs, Waveform.get_sampled as the sampling '
                   'function, harness.  Models are tied to /repo by an exact correspondence check that calls both internal '
